@@ -11,7 +11,7 @@ interfaces, tuples, div (allow / and %), big (literals near INT_MIN/INT_MAX), pa
 INT, BOOL, STR = 'int', 'bool', 'Str'
 
 DEFAULT_OPTS = dict(loops=True, closures=True, vec=True, strings=True, generics=True, interfaces=True,
-                    tuples=True, div=True, big=False, panics=True, nfun=5, depth=3, two_modules=False, avoid_known_iv=False)
+                    tuples=True, div=True, big=False, panics=True, nfun=5, depth=3, two_modules=False, avoid_known_iv=False, vec_small=False, min_struct_fields=1)
 
 
 class Ctx:
@@ -61,10 +61,12 @@ class ProgGen:
                 variants.append((vn, tys))
             self.enums.append((name, variants))
             if r.chance(1, 2) and i == 0:
-                fields = [('f%d' % k, r.pick([INT, INT, BOOL, STR, name])) for k in range(r.range(1, 3))]
+                fields = [('f%d' % k, r.pick([INT, INT, BOOL, STR, name])) for k in range(r.range(self.o['min_struct_fields'], 3))]
                 self.structs.append(('S%d' % len(self.structs), fields))
         if not self.structs:
             self.structs.append(('S0', [('f0', INT), ('f1', r.pick([INT, BOOL, self.enums[0][0]]))]))
+        if self.o['min_struct_fields'] > 1:
+            self.features.add('no-single-field-struct')
         for name, variants in self.enums:
             vs = ', '.join(v if not tys else '%s(%s)' % (v, ', '.join(tys)) for v, tys in variants)
             body = self.enum_methods(name, variants)
@@ -230,6 +232,8 @@ class ProgGen:
             self.features.add('vec')
             v = self.fresh('w')
             a, b = self.gen_int(ctx, depth - 2), self.gen_int(ctx, depth - 2)
+            if self.o['vec_small']:
+                a, b = '(%s %% 1000)' % a, '(%s %% 1000)' % b
             return '{ let %s = Vec.of(%s); %s.push(%s); %s.set(0, %s.get(1) + 1); %s.get(0) + %s.length() }' % (v, a, v, b, v, v, v, v)
         if k < 96 and self.o['strings']:
             self.features.add('strings')
@@ -390,3 +394,126 @@ def gen_program(rng, opts=None):
     g = ProgGen(rng, opts)
     text = g.program()
     return {'sources': {'Main': text}, 'entry': 'Main', 'features': sorted(g.features)}
+
+
+# ---------------------------------------------------------------------------------------------
+# Layout-focused programs: nested generic enums over structs / ints / strings / recursive enums,
+# matched with nested patterns.  Exercises the unboxed-variant decision for many type shapes.
+
+LAYOUT_DECLS = '''class S(val a: int, val b: int) {}
+class One(val v: int) {}
+class Nat(Zero, Succ(Nat)) {}
+class Opt<T>(Non, Som(T)) {}
+class Box<T>(Only(T)) {}
+class Two<T>(Lft(T), Rgt(T)) {}
+class Tri<T>(Emp, Mid(T), Big(T, int)) {}
+class Wrap(W(S)) {}
+class WrapOne(WO(One)) {}
+class Ma(MaX, MaY(Mb)) {}
+class Mb(MbP, MbQ(Ma)) {}
+'''
+
+
+def _lt(rng, depth):
+    if depth <= 0 or rng.chance(1, 4):
+        return rng.pick(['int', 'Str', 'S', 'One', 'Nat', 'Wrap', 'WrapOne', 'Ma', 'Mb'])
+    g = rng.pick(['Opt', 'Opt', 'Box', 'Two', 'Tri'])
+    return (g, _lt(rng, depth - 1))
+
+
+def _tname(t):
+    return t if isinstance(t, str) else '%s<%s>' % (t[0], _tname(t[1]))
+
+
+def _lvals(rng, t, k):
+    """(expression text, list of ints identifying it) - returns one random value of type t."""
+    if t == 'int':
+        return str(rng.range(-3, 9))
+    if t == 'Str':
+        return '"s%d"' % rng.below(3)
+    if t == 'S':
+        return 'S.init(%d, %d)' % (rng.below(5), rng.below(5))
+    if t == 'One':
+        return 'One.init(%d)' % rng.below(6)
+    if t == 'Nat':
+        n = rng.below(3)
+        return 'Nat.Succ(' * n + 'Nat.Zero()' + ')' * n
+    if t == 'Wrap':
+        return 'Wrap.W(S.init(%d, 1))' % rng.below(4)
+    if t == 'WrapOne':
+        return 'WrapOne.WO(One.init(%d))' % rng.below(6)
+    if t == 'Ma':
+        return rng.pick(['Ma.MaX()', 'Ma.MaY(Mb.MbP())', 'Ma.MaY(Mb.MbQ(Ma.MaX()))'])
+    if t == 'Mb':
+        return rng.pick(['Mb.MbP()', 'Mb.MbQ(Ma.MaX())', 'Mb.MbQ(Ma.MaY(Mb.MbP()))'])
+    g, a = t
+    ta = '<%s>' % _tname(a)
+    if g == 'Opt':
+        return 'Opt.Non%s()' % ta if rng.chance(1, 3) else 'Opt.Som(%s)' % _lvals(rng, a, k)
+    if g == 'Box':
+        return 'Box.Only(%s)' % _lvals(rng, a, k)
+    if g == 'Two':
+        return '%s(%s)' % (rng.pick(['Two.Lft', 'Two.Rgt']), _lvals(rng, a, k))
+    c = rng.below(3)
+    return 'Tri.Emp%s()' % ta if c == 0 else 'Tri.Mid(%s)' % _lvals(rng, a, k) if c == 1 else 'Tri.Big(%s, %d)' % (_lvals(rng, a, k), rng.below(4))
+
+
+def _larms(t, prefix, cnt):
+    """Exhaustive list of (pattern, int expression) for type t, one level of constructors per level of t."""
+    if t in ('int',):
+        x = 'x%d' % cnt[0]
+        cnt[0] += 1
+        return [(x, x)]
+    if t == 'Str':
+        return [('_', '1')]
+    if t == 'S':
+        x = 'x%d' % cnt[0]
+        cnt[0] += 1
+        return [('{ a as %s, b }' % x if cnt[0] % 2 else '(%s, _)' % x, x)]
+    if t == 'One':
+        x = 'x%d' % cnt[0]
+        cnt[0] += 1
+        return [('(%s)' % x, x)]
+    if t == 'Nat':
+        return [('Zero', '0'), ('Succ(Zero)', '1'), ('Succ(Succ(_))', '2')]
+    if t == 'Wrap':
+        x = 'x%d' % cnt[0]
+        cnt[0] += 1
+        return [('W((%s, _))' % x, x)]
+    if t == 'WrapOne':
+        x = 'x%d' % cnt[0]
+        cnt[0] += 1
+        return [('WO((%s))' % x, x)]
+    if t == 'Ma':
+        return [('MaX', '0'), ('MaY(MbP)', '1'), ('MaY(MbQ(_))', '2')]
+    if t == 'Mb':
+        return [('MbP', '0'), ('MbQ(MaX)', '1'), ('MbQ(MaY(_))', '2')]
+    g, a = t
+    inner = _larms(a, prefix, cnt)
+    out = []
+    if g == 'Opt':
+        out.append(('Non', '100'))
+        out += [('Som(%s)' % p, '(%s) * 2 + 1' % e) for p, e in inner]
+    elif g == 'Box':
+        out += [('Only(%s)' % p, '(%s) + 7' % e) for p, e in inner]
+    elif g == 'Two':
+        out += [('Lft(%s)' % p, '(%s) * 3' % e) for p, e in inner]
+        out += [('Rgt(%s)' % p.replace('x', 'y'), '(%s) * 3 + 1' % e.replace('x', 'y')) for p, e in inner]
+    else:
+        out.append(('Emp', '200'))
+        out += [('Mid(%s)' % p, '(%s) * 5' % e) for p, e in inner]
+        out += [('Big(%s, k%d)' % (p.replace('x', 'z'), cnt[0]), '(%s) * 5 + k%d' % (e.replace('x', 'z'), cnt[0])) for p, e in inner]
+        cnt[0] += 1
+    return out
+
+
+def gen_layout_program(rng, nty=4):
+    funs, prints = [], []
+    for i in range(nty):
+        t = _lt(rng, rng.range(1, 3))
+        arms = _larms(t, 'p', [0])
+        funs.append('  function sh%d(v: %s): int = match v { %s }' % (i, _tname(t), ', '.join('%s -> %s' % a for a in arms)))
+        for _ in range(3):
+            prints.append('    Process.println(Str.fromInt(Main.sh%d(%s)));' % (i, _lvals(rng, t, 0)))
+    text = LAYOUT_DECLS + 'class Main {\n' + '\n'.join(funs) + '\n  function main(): unit = {\n' + '\n'.join(prints) + '\n  }\n}\n'
+    return {'sources': {'Main': text}, 'entry': 'Main', 'features': ['layout']}
